@@ -262,6 +262,21 @@ def corpus_cases():
     cfg = config(pages)
     reqs = [pipe.req(b"/v", headers=[(b"x-up", b"B")]), pipe.req(b"/v", headers=[(b"x-up", b"a")]), pipe.req(b"/v")]
     cases.append(mk(cfg, history_ops(reqs, reqs, pages), "corpus"))
+    # a request suspended at the await of handle_vary_missing while the entry is replaced by a shorter one
+    # (before the fix: Vec::insert panicked) / while another variant is inserted (before the fix: vector unsorted,
+    # the next request for "b" recomputed it and stored it twice)
+    rules = [(b"x-a", 0, b"dflt", b"x-a")]
+    pages = [(b"/v", rules)]
+    cfg = config(pages)
+
+    def R(v):
+        return pipe.req(b"/v", headers=[(b"x-a", v)])
+    cases.append(mk(cfg, [R(b"b"), R(b"c"), R(b"d"), park(b"/v", headers=[(b"x-a", b"e")]), pipe.clear_page(b"/v"), R(b"a"), release(),
+                          dump(b"/v"), R(b"e"), R(b"a"), dump(b"/v")], "corpus-interleaved", spec=False))
+    cases.append(mk(cfg, [R(b"a"), park(b"/v", headers=[(b"x-a", b"c")]), R(b"b"), release(), dump(b"/v"), R(b"b"), R(b"c"), R(b"a"),
+                          dump(b"/v")], "corpus-interleaved", spec=False))
+    cases.append(mk(cfg, [R(b"a"), park(b"/v", headers=[(b"x-a", b"c")]), R(b"c"), release(), dump(b"/v"), R(b"c"), dump(b"/v")],
+                    "corpus-interleaved", spec=False))
     return cases
 
 
@@ -331,6 +346,65 @@ def spec_ok(c, impl, spec):
         elif x != y:
             return False
     return True
+
+
+def _xf(i, v):
+    if i == 0:
+        return v.lower()
+    if i == 1:
+        return b"none" if not v else (b"lo" if b"a" <= v[:1].lower() <= b"m" else b"hi")
+    if i == 2:
+        return b"%d" % (len(v) % 3)
+    return b"k"
+
+
+def extra_oracle(c, impl):
+    """On the implementation's output alone (also for the park/release histories, which have no sequential spec):
+    every dumped vector is strictly sorted (hence duplicate-free) and every 200 body is the handler prefix followed
+    by the rendering of the request's *own* transformed tuple (Python re-implementation of the menu)."""
+    try:
+        out = xparse(impl)
+        if out == ("L", [("N", 2)]):
+            return "handle_cache panicked" if c.meta.get("kind") != "malformed-rule-name" else None
+        cfg = {k[1][0][1]: k[1][1] for k in c.x[1][0][1]}
+        pages = {}
+        for i, h in enumerate(cfg[b"handlers"][1]):
+            f = h[1]
+            pages[f[0][1]] = (f[3][1], [(t[1][0][1], t[1][1][1], t[1][2][1]) for t in f[9][1]])
+        ops = c.x[1][1][1]
+        pending = None
+        for o, x in zip(ops, out[1]):
+            kind = o[1][0][1]
+            if kind == 4:
+                for slot in x[1]:
+                    if slot[1]:
+                        vec = [_hc(h) for h in slot[1][0][1]]
+                        if any(not (vec[j] < vec[j + 1]) for j in range(len(vec) - 1)):
+                            return "stored variant vector is not strictly sorted: %r" % (vec,)
+            req = None
+            if kind in (0, 5):
+                req = o
+                if kind == 5 and x == ("L", []):
+                    pending, req = o, None
+            elif kind == 6 and pending is not None:
+                req, pending = pending, None
+            if req is not None and x[0] == "L" and len(x[1]) == 6 and x[1][0][1] == 200:
+                path = req[1][3][1].split(b"?")[0]
+                if path in pages:
+                    prefix, tup = pages[path]
+                    hdrs = {}
+                    for h in req[1][4][1]:
+                        hdrs.setdefault(h[1][0][1], h[1][1][1])
+                    want = prefix
+                    for (n, xf, d) in tup:
+                        v = hdrs.get(n)
+                        text = v is not None and all(32 <= b < 127 or b == 9 for b in v)
+                        want += b"|" + (_xf(xf, v) if text else d)
+                    if x[1][2][1] != want:
+                        return "body %r is not the rendering of the request's own transformed tuple %r" % (x[1][2][1], want)
+    except Exception as e:  # malformed output is a correspondence matter, not an oracle verdict
+        return None
+    return None
 
 
 def _max_variants(m):
